@@ -1734,4 +1734,9 @@ def replay(ctx, path):
     print("model:         ", l[0])
     print("recorded:      ", {k: w[k] for k in w if k not in ("op",)})
     ctx.evals += 1
-    ctx.S("replayed " + obj.get("what", ""), op=op, impl=c[0])
+    # reproduced = the implementation answers today what it answered when the violation was recorded (or faults again)
+    rec = w.get("impl") or w.get("option") or w.get("ulabel") or w.get("got")
+    if (rec is not None and c[0] == rec) or "FAULT" in (c[0] or "") or (rec is None and c[0] != l[0]):
+        ctx.S("replayed " + obj.get("what", ""), op=op, impl=c[0])
+    else:
+        print("not reproduced on this tree: the implementation now answers %r (recorded: %r)" % (c[0], rec))
